@@ -38,6 +38,12 @@ def judge_step(pp, vidx, voc, prog_idx, ai, parent_results):
     if b['exc'] is not None and b['phase'] != 'bake':
         # refused while adding the step: a lifecycle matter (C16) unless the eager operation is fine
         cls = ('refused-at-add', outcome_class(b['exc']))
+        subs, w = e2.world_after(pp, vidx, parent_results, e2.outside_mentioned(full))
+        env.clear_caches(pp)
+        if e1.apply(pp, subs, w, act)['ok']:
+            vs.append(V(f"Recipe | step-refused-but-eager-succeeds | {feat},raises={cls[1]}",
+                        f"program [{text}]: the last step is refused when it is added to the recipe ({cls[1]}: {b['exc']}) although "
+                        f"the same operation succeeds on the baked prefix", case, 'accepted', cls[1]))
         return vs, False, cls
     subs, w = e2.world_after(pp, vidx, parent_results, e2.outside_mentioned(full))
     env.clear_caches(pp)
@@ -79,6 +85,24 @@ def judge_step(pp, vidx, voc, prog_idx, ai, parent_results):
                         f"program [{text}]: after bake '{n}' differs from applying the last step eagerly to the baked prefix: {d}",
                         case))
             break
+    # the same program with a premature bake() after every step that leaves a declared object unused: each is refused, and
+    # the final bake must return what it returns without them
+    if any(set(e2.outside_mentioned(full)) - set(e2.outside_mentioned(full[:i + 1])) for i in range(len(full) - 1)) and not vs:
+        b2 = e2.bake(pp, vidx, full, premature=True)
+        if b2.get('premature'):
+            pass        # accepting it is a lifecycle matter (C16); the recipe is locked afterwards, nothing to compare
+        elif not b2['ok']:
+            vs.append(V(f"bake | refused-bake-leaves-traces | {feat},outcome",
+                        f"program [{text}] with a (refused) bake() after each step that leaves a declared object unused: the final "
+                        f"bake raises {outcome_class(b2['exc'])}: {b2['exc']}", case, 'returns', outcome_class(b2['exc'])))
+        else:
+            for n in sorted(names):
+                d = e2.same_object(pp, b2['results'].get(n), got[n]) if n in b2['results'] else 'missing'
+                if d:
+                    vs.append(V(f"bake | refused-bake-leaves-traces | {feat}",
+                                f"program [{text}] with a (refused) bake() after each step that leaves a declared object unused: "
+                                f"'{n}' differs from the result without those calls: {d}", case))
+                    break
     return vs, True, cls
 
 
